@@ -366,6 +366,9 @@ func (ex *Explorer) runPath(h *HarnessSpec, solver *Solver, prefix []decision, w
 			case unsupported:
 				ctx.endReason = "unsupported"
 				out.inconcl = append(out.inconcl, "unsupported: "+p.msg)
+				if ex.Verbose {
+					fmt.Fprintf(os.Stderr, "unsupported: %s\n%s\n", p.msg, debug.Stack())
+				}
 			case engineBug:
 				ctx.endReason = "engine error"
 				out.inconcl = append(out.inconcl, "engine error: "+p.msg)
